@@ -179,7 +179,10 @@ Definition predict (f : N) : bool * bool * bool * bool :=
 Definition c07_model_bad (c : fcase) : bool :=
   let '(valid, ret, isnil, cl2) := predict (f_fault c) in
   let killed_before_start := (f_exit c <? 0) && nothing_ran c in
-  if killed_before_start then false
+  (* a never-ending action counts as injected only if the ledger shows it started and did not end *)
+  let not_injected := is_hang (f_fault c) && negb (f_fault c =? F_hang_clean_1)%N && negb (f_fault c =? F_hang_clean_2)%N
+                      && negb (existsb (fun a => snd a <? 0) (f_actions c)) in
+  if killed_before_start || not_injected then false
   else negb valid
        || negb (Bool.eqb cl2 (second_phase_complete c))
        || (ret && f_exited c &&
